@@ -151,6 +151,7 @@ REGISTRY = {
     "C10": {
         "rules": [
             dmrg.rule_lockstep, dmrg.rule_mirror_blocks, registries.rule_dense_linop_agree,
+            P(dmrg.rule_sweep_memory, sites=[("quimb.tensor.tn1d.dmrg", "DMRG.solve", ("sweep",), "canonize")]),
             P(optflow.rule_option_delivery, opts=("bra",), modules=("quimb.tensor.tn1d.core", "quimb.tensor.tensor_core", "quimb.tensor.tn2d.core"),
               rule="bra-forwarding", floor=10,
               description="every function with a `bra` parameter forwards bra=bra to each callee that accepts `bra` (a dropped bra "
@@ -168,6 +169,7 @@ REGISTRY = {
     "C09": {
         "rules": [
             registries.rule_compress_registry_1d, registries.rule_full_span,
+            P(dmrg.rule_sweep_memory, sites=[("quimb.tensor.tn1d.compress", "tensor_network_1d_compress_fit", ("f_sweep",), "prepare")], rule="sweep-memory[fit]"),
             P(optflow.rule_option_delivery, opts=("max_bond", "cutoff"), modules=("quimb.tensor.tn1d",), rule="cap-delivery[1d]", floor=40),
             P(registries.rule_mode_total, specs=[
                 ("quimb.tensor.tn1d.core", "TensorNetwork1DFlat.compress", "form"),
